@@ -20,7 +20,7 @@ ASSUMPTIONS = [
     "reference semantics S / table of DESIGN.md Appendix A; dungeon-mode numbers 0..3 equal their configured constants",
     "well-formedness of DESIGN.md Appendix B; inputs whose decompilation exceeds the step budget or raises are C06's",
 ]
-CASES = {"quick": 6400, "thorough": 120000}
+CASES = {"quick": 9600, "thorough": 120000}
 
 DM = {("c", n): i for i, n in enumerate(T.DUNGEON_MODE_CONSTANTS)}
 
